@@ -745,6 +745,7 @@ func genC12(d *Draw) Case {
 	if d.N(4) == 3 {
 		opts.SubInLoop = true
 	}
+	opts.ActivityDefault = d.Bool()
 	// both programs are generated from the same draws
 	rec := &simrt.RecTape{}
 	*rec = *(d.T.(*simrt.RecTape))
